@@ -484,7 +484,105 @@ func stripFrag(p []interface{}) []interface{} {
 var c06Kinds = []string{workload.FaultError, workload.FaultGGQLError, workload.FaultErrorGroup, workload.FaultBadLeaf,
 	workload.FaultGroupExt, workload.FaultNestedGrp, workload.FaultBadList, workload.FaultTwinGroup, workload.FaultWrapGroup, workload.FaultWrapGGQL, workload.FaultOwnPath, workload.FaultTypedNil}
 
+// runSubscription is the subscription family of C06: a subscription operation
+// whose root fields the subscription resolver accepts or refuses (a plain error
+// or a group of two). Every refusal is one entry (one per member of a group)
+// whose path is the response key of the refused field.
+func (c C06) runSubscription(t *tape.Tape, opt core.RunOpt) (res core.Result) {
+	w, err := workload.NewSubWorld(&seqEnv{})
+	if err != nil {
+		res.Fatal = "cannot load the subscription schema: " + err.Error()
+		return
+	}
+	w.ListEvents = t.Bool(1, 4)
+	fname := "watch"
+	if w.ListEvents {
+		fname = "watchBatch"
+	}
+	n := 1 + t.Draw(3)
+	var parts []string
+	type exp struct {
+		key string
+		n   int
+	}
+	var want []exp
+	for i := 0; i < n; i++ {
+		key := fname
+		sid := i + 1
+		w.AddSub(&workload.SimSub{ID: sid, Topic: "a"})
+		mine := -1
+		switch t.Draw(4) {
+		case 0:
+			sid = 99
+			want = append(want, exp{key, 1})
+			mine = len(want) - 1
+		case 1:
+			sid = 98
+			want = append(want, exp{key, 2})
+			mine = len(want) - 1
+		}
+		f := fmt.Sprintf("%s(topic: \"a\", sid: %d) { id }", fname, sid)
+		if i > 0 || t.Bool(1, 2) {
+			key = fmt.Sprintf("k%d", i)
+			f = key + ": " + f
+		}
+		if mine >= 0 {
+			want[mine].key = key
+		}
+		switch t.Draw(4) {
+		case 0:
+			f = "... { " + f + " }"
+		case 1:
+			f = "... on Subscription { " + f + " }"
+		}
+		parts = append(parts, f)
+	}
+	src := "subscription { " + strings.Join(parts, " ") + " }"
+	res.Evaluations = 1
+	res.Sig = core.Hash64("c06sub", src)
+	res.NonTrivial = len(want) > 0
+	res.Count("probe_subscription_operation", 1)
+	resp := w.Root.ResolveString(src, "", nil)
+	if opt.WantSample {
+		res.Sample = map[string]interface{}{"family": "subscription operation with refused root fields", "request": src, "response": workload.CanonLite(resp)}
+	}
+	fail := func(cls, detail string) {
+		res.Violate("C06", cls, fmt.Sprintf("subscription operation: %s\nrequest: %s\nresponse: %s", detail, src, workload.CanonLite(resp)), nil)
+	}
+	if resp["data"] != nil {
+		fail("subscription_response_has_data", "the response of a subscription request carries data")
+		return
+	}
+	ea, _ := resp["errors"].([]interface{})
+	got := map[string]int{}
+	for _, e := range ea {
+		m, _ := e.(map[string]interface{})
+		p, _ := m["path"].([]interface{})
+		got[workload.CanonLite(stripFrag(p))]++
+	}
+	total := 0
+	for _, x := range want {
+		total += x.n
+		ps := workload.CanonLite([]interface{}{x.key})
+		if got[ps] != x.n {
+			cls := "failure_not_reported_exactly_once"
+			if got[ps] == 0 {
+				cls = "error_path_addresses_nothing"
+			}
+			fail(cls, fmt.Sprintf("the subscription field with the response key %q was refused with %d error(s): expected %d entr(ies) with the path %s, found %d", x.key, x.n, x.n, ps, got[ps]))
+			return
+		}
+	}
+	if len(ea) != total {
+		fail("failure_not_reported_exactly_once", fmt.Sprintf("%d refusals in all, %d entries", total, len(ea)))
+	}
+	return
+}
+
 func (c C06) Run(t *tape.Tape, opt core.RunOpt) (res core.Result) {
+	if t.Bool(1, 12) {
+		return c.runSubscription(t, opt)
+	}
 	strat := []workload.Strategy{workload.StratInterface, workload.StratInterface, workload.StratAnyWrapped, workload.StratAnyWrapped, workload.StratReflect, workload.StratAny}[t.Draw(6)]
 	pathAware := strat == workload.StratInterface || strat == workload.StratAnyWrapped
 	q := workload.GenZoo(t)
@@ -499,6 +597,28 @@ func (c C06) Run(t *tape.Tape, opt core.RunOpt) (res core.Result) {
 	// answers beyond the limit - the unresolved Go value - is outside the property)
 	c06Depth = []int{0, 0, 40, 250}[t.Draw(4)]
 	c06DepthEarly = t.Bool(1, 2)
+	tight := t.Bool(1, 5)
+	if tight {
+		// the smallest limit that still resolves everything the request selects
+		// (the deepest fields are then resolved with exactly one level left):
+		// found by comparing the resolver invocations with the unlimited run
+		c06Depth = 0
+		_, trU, panU := resolveTracked(q, strat, req, &workload.FaultPlan{})
+		if panU == "" && trU != nil {
+			for m := 2; m <= 40; m++ {
+				c06Depth = m
+				_, trM, panM := resolveTracked(q, strat, req, &workload.FaultPlan{})
+				if panM == "" && trM != nil && len(trM.Calls) == len(trU.Calls) {
+					break
+				}
+				c06Depth = 0
+			}
+		}
+		if c06Depth > 0 {
+			c06Depth++
+			res.Count("probe_depth_limit_just_above_the_request_nesting", 1)
+		}
+	}
 	r0, tr0, pan := resolveTracked(q, strat, req, &workload.FaultPlan{})
 	res.Evaluations = 1
 	res.Sig = core.Hash64("r0", strat.String(), req.Src, req.Op)
